@@ -3,4 +3,17 @@ package mon
 // Monitors maps property ids to their monitor.
 var Monitors = map[string]func(*Ctx){
 	"C01": C01,
+	"C02": C02,
+	"C04": C04,
+	"C05": C05,
+	"C06": C06,
+	"C07": C07,
+	"C08": C08,
+	"C09": C09,
+	"C10": C10,
+	"C13": C13,
+	"C14": C14,
+	"C15": C15,
+	"C16": C16,
+	"C17": C17,
 }
